@@ -189,8 +189,29 @@ def run(case):
         tags.append("saveload")
 
         def sl():
+            import pathlib
+            form = (tot + 3 * n) % 5          # the path in several spellings: str, pathlib.Path, a name without extension (numpy appends .npz), open file objects, an existing file overwritten
             with tempfile.TemporaryDirectory(prefix="rtmon-c01-") as d:
                 p = os.path.join(d, "x.npz")
+                if form == 1:
+                    ra.save(pathlib.Path(p))
+                    return RA.load(pathlib.Path(p))
+                if form == 2:
+                    ra.save(os.path.join(d, "x"))
+                    return RA.load(p)
+                if form == 3:
+                    with open(p, "wb") as fh:
+                        ra.save(fh)
+                    with open(p, "rb") as fh:
+                        return RA.load(fh)
+                if form == 4:
+                    RA(np.arange(7), [3, 4]).save(p)          # an older file of the same name is replaced
+                    ra.save(p)
+                    first = RA.load(p)
+                    second = RA.load(p)                        # loading twice gives two independent arrays
+                    if first.size:
+                        first.ravel()[0] = first.ravel()[0] + 1 if dt.kind != "b" else not first.ravel()[0]
+                    return second
                 ra.save(p)
                 return RA.load(p)
         o = attempt(sl)
